@@ -179,6 +179,45 @@ def cases_zero_weights(tier):
     return out
 
 
+_written = {}
+
+
+def multi_menu(schema):
+    """the hand-built menu plus, for NeXML, two documents written by DendroPy itself from tree lists whose
+    namespaces are ordered differently (its writer numbers ids d0, d1, ... so the ids coincide while the
+    id -> label bindings differ); the writer is only a source of text here, the oracle stays pairwise"""
+    menu = list(D.multi_menu(schema))
+    if schema == "nexml":
+        if not _written:
+            for name, order, nw, n in (("written-by-dendropy", ["a", "b", "c", "d"], "((a,b),(c,d));", 1),
+                                       ("written-by-dendropy-other-order", ["d", "c", "b", "a"], "((a,c),(b,d));(a,(b,(c,d)));", 2)):
+                tl = dendropy.TreeList.get(data=nw, schema="newick", taxon_namespace=dendropy.TaxonNamespace(order))
+                _written[name] = (tl.as_string("nexml"), n)
+        for name in sorted(_written):
+            menu.append((name, _written[name][0], _written[name][1]))
+    return menu
+
+
+MULTI_TRIPLES = [(0, 1, 0), (1, 0, 1), (3, 1, 2), (2, 3, 1)]
+
+
+def cases_multi(tier):
+    """every ordered pair (thorough: also every ordered triple) of menu documents, read as several sources
+    into one namespace"""
+    out = []
+    for schema in ("newick", "nexus", "nexml"):
+        n = len(multi_menu(schema))
+        seqs = [(i, j) for i in range(n) for j in range(n)]
+        if tier == "quick":
+            seqs += MULTI_TRIPLES + ([(5, 6, 5), (6, 0, 5)] if n > 6 else [])
+        else:
+            seqs += [(i, j, k) for i in range(n) for j in range(n) for k in range(n)]
+        for seq in seqs:
+            for o in ({}, {"store_tree_weights": True, "rooting": "force-unrooted"}) if tier != "quick" else ({},):
+                out.append({"kind": "multi", "schema": schema, "opts": o, "p": {"seq": list(seq)}})
+    return out
+
+
 def bounds(tier):
     q = tier == "quick"
     return {
@@ -205,6 +244,11 @@ def bounds(tier):
         "zero_weight_layer": {"tokens": D.ZERO_WEIGHTS, "placement": list(D.ZERO_PATTERNS), "token_rotations": 3, "rooting": ["none", "R"],
                               "newick_statements": [1, 2, 3], "nexus": "layouts x TAXA none/one x TRANSLATE none/perm",
                               "options": "store_tree_weights True, False (control), True + force-rooted + explicit namespace"},
+        "multi_source_layer": {"menus": dict((sch, [m[0] for m in multi_menu(sch)]) for sch in ("newick", "nexus", "nexml")),
+                               "sequences": "every ordered pair of menu documents" + (" and six triples" if q else " and every ordered triple"),
+                               "routes": ["Tree.yield_from_files (StringIO / paths)", "TreeArray.read_from_files", "TreeArray.read per file", "TreeList.read per file into one list",
+                                          "DataSet.read per file with an attached namespace"],
+                               "reference": "TreeList.get(taxon_namespace=shared) per file"},
         "layers": list(active_layers()),
     }
 
@@ -376,6 +420,7 @@ LAYERS = {
     "chars": (cases_chars, 120),
     "labels": (cases_labels, 60),
     "zero-weights": (cases_zero_weights, 40),
+    "multi-source": (cases_multi, 12),
 }
 _case_cache = {}
 
@@ -391,7 +436,7 @@ def active_layers():
     """development aid: VERIF_C13_LAYERS=a,b restricts a run to some layers (recorded in the
     evidence through bounds()); registered commands never set it"""
     v = os.environ.get("VERIF_C13_LAYERS")
-    names = ("nexus-core", "nexus-deco", "newick", "structure", "nexml", "chars", "labels", "zero-weights")
+    names = ("nexus-core", "nexus-deco", "newick", "structure", "nexml", "chars", "labels", "zero-weights", "multi-source")
     if v:
         return tuple(x for x in names if x in v.split(","))
     return names
@@ -412,6 +457,11 @@ def chunks(tier):
 
 def render(case):
     """-> (text, schema, blocks | classes)"""
+    if case["kind"] == "multi":
+        if "texts" in case:
+            return case["texts"], case["schema"], case["counts"]
+        menu = multi_menu(case["schema"])
+        return [menu[i][1] for i in case["p"]["seq"]], case["schema"], [menu[i][2] for i in case["p"]["seq"]]
     if "text" in case:
         return case["text"], case["schema"], case.get("blocks") if case["kind"] == "trees" else case.get("classes")
     p = dict(case["p"])
@@ -1253,8 +1303,151 @@ def run_char_case(case, ctx, tmp):
 
 # ---------------------------------------------------------------------------
 
+def run_multi_case(case, ctx, tmp):
+    """several sources, one namespace: every route that takes the sources together (one reader kept across
+    them) or one after the other must deliver what TreeList.get(taxon_namespace=shared) delivers file by file"""
+    texts, schema, counts = render(case)
+    opts = case["opts"]
+    env = Env("\n".join(texts), schema, opts, tmp)
+    R = Reporter(ctx, case, env, nontrivial=True)
+    ctx.count("cases|multi|" + schema)
+    T, TL, DS, TA = dendropy.Tree, dendropy.TreeList, dendropy.DataSet, dendropy.TreeArray
+    kw = env.kw
+    paths = []
+    for i, t in enumerate(texts):
+        pth = os.path.join(tmp, "multi_%d.txt" % i)
+        with open(pth, "w", newline="") as f:
+            f.write(t)
+        paths.append(pth)
+
+    def newns():
+        return dendropy.TaxonNamespace(is_case_sensitive=bool(kw.get("case_sensitive_taxon_labels")))
+
+    def reference():
+        ns = newns()
+        trees = []
+        for t in texts:
+            try:
+                tl = TL.get(data=t, schema=schema, taxon_namespace=ns, **kw)
+                trees.extend(tl._trees)
+            except Exception:
+                ctx.count("multi_reference_taken_from_DataSet_with_attached_namespace")
+                ds = DS.get(data=t, schema=schema, taxon_namespace=ns, **kw)
+                trees.extend(ds_trees(ds))
+        return ns, trees
+    ref = attempt(reference)
+    R.evaluated("reference", "multi-file|reference")
+    if ref[0] != "ok":
+        ctx.count("multi_cases_without_reference")
+        return
+    want = [tree_snap(t) for t in ref[1][1]]
+    if len(want) != sum(counts):
+        R.viol("multi-file|reference", "tree-count", "file-by-file reads deliver %d trees, the documents hold %d" % (len(want), sum(counts)), "TreeList.get per file")
+        return
+    ctx.count("trees_in_documents", len(want))
+    names = case.get("names")
+
+    def check(route, fn, to_trees):
+        family = "multi-file|" + route.split("(")[0].split(" ")[0]
+        ns = newns()
+        oc = attempt(lambda: fn(ns))
+        trees = R.compare(family, "%s over %s" % (route, names), oc, want, to_trees)
+        if trees is None:
+            return
+        members = set(id(x) for x in ns._taxa)
+        by_label = {}
+        for t in trees:
+            if t.taxon_namespace is not ns:
+                R.viol(family, "tree-not-in-given-namespace", "a delivered tree is not attached to the shared namespace", route)
+                break
+            for nd in t.preorder_node_iter():
+                if nd.taxon is not None:
+                    by_label.setdefault(nd.taxon._label, set()).add(id(nd.taxon))
+                    if id(nd.taxon) not in members:
+                        by_label.setdefault(nd.taxon._label, set()).add(-1)
+        labels = [x._label for x in ns._taxa]
+        if any(len(v) > 1 for v in by_label.values()) or len(set(labels)) != len(labels):
+            R.viol(family, "different-taxon-objects", "one label is carried by several Taxon objects across the sources (namespace labels %s)" % (labels,), route)
+
+    def srcs(kind):
+        if kind == "stringio":
+            return [io.StringIO(t) for t in texts]
+        if kind == "paths":
+            return list(paths)
+        return [paths[i] if i % 2 else io.StringIO(texts[i]) for i in range(len(texts))]
+
+    for kind in ("stringio", "paths", "mixed"):
+        check("Tree.yield_from_files(%s)" % kind, lambda ns: list(T.yield_from_files(srcs(kind), schema, taxon_namespace=ns, **kw)), None)
+
+    def read_each(ns):
+        tl = TL(taxon_namespace=ns)
+        for i, t in enumerate(texts):
+            if i % 2:
+                tl.read(path=paths[i], schema=schema, **kw)
+            else:
+                tl.read(data=t, schema=schema, **kw)
+        return list(tl._trees)
+    check("TreeList.read(one call per file, one list)", read_each, None)
+
+    def ds_each(ns):
+        ds = DS()
+        ds.attach_taxon_namespace(ns)
+        for i, t in enumerate(texts):
+            if i % 2:
+                ds.read(path=paths[i], schema=schema, **kw)
+            else:
+                ds.read(data=t, schema=schema, **kw)
+        return ds_trees(ds)
+    check("DataSet.read(one call per file, attached namespace)", ds_each, None)
+
+    # tree arrays: content against an array filled by add_trees from the file-by-file trees
+    def expected():
+        ns, trees = reference()
+        ta = TA(taxon_namespace=ns)
+        ta._c13_ref_weights = [t.weight for t in trees]
+        ta.add_trees(trees)
+        return ta
+    exp = attempt(expected)
+
+    def ta_check(route, fn):
+        family = "multi-file|" + route.split("(")[0]
+        R.evaluated(route, family)
+        got = attempt(fn)
+        if exp[0] != "ok":
+            ctx.count("multi_tree_array_without_expectation|" + exp[1])
+            return
+        if got[0] != "ok":
+            R.exc(family, "%s over %s" % (route, names), got)
+            return
+        a, b = ta_data(got[1]), ta_data(exp[1])
+        if len(a[1]) != len(b[1]):
+            R.viol(family, "tree-count", "%d trees stored, file-by-file reads deliver %d" % (len(a[1]), len(b[1])), route)
+        elif a[1] != b[1] or a[0] != b[0]:
+            i = ([x != y for x, y in zip(a[1], b[1])] + [True]).index(True)
+            i = min(i, len(a[1]) - 1)
+            f = "is_rooted_trees" if a[1] == b[1] else ("weights" if a[1][i][2] != b[1][i][2] else ("leafset" if a[1][i][1] != b[1][i][1] else "splits-or-lengths"))
+            R.viol(family, f, "tree %d stored as %r, the tree read on its own gives %r (sources %s)" % (i, a[1][i], b[1][i], names), route)
+        if a[2] != b[2]:
+            R.viol(family, "namespace-labels", "array namespace holds %s, file-by-file namespace %s" % (list(a[2]), list(b[2])), route)
+
+    def rff():
+        ta = TA(taxon_namespace=newns())
+        ta.read_from_files(srcs("mixed"), schema, **kw)
+        return ta
+
+    def ta_each():
+        ta = TA(taxon_namespace=newns())
+        for t in texts:
+            ta.read(data=t, schema=schema, **kw)
+        return ta
+    ta_check("TreeArray.read_from_files(mixed)", rff)
+    ta_check("TreeArray.read(one call per file)", ta_each)
+
+
 def run_case(case, ctx, tmp):
-    if case["kind"] == "trees":
+    if case["kind"] == "multi":
+        run_multi_case(case, ctx, tmp)
+    elif case["kind"] == "trees":
         run_tree_case(case, ctx, tmp)
     else:
         run_char_case(case, ctx, tmp)
@@ -1263,6 +1456,10 @@ def run_case(case, ctx, tmp):
 def compact(case):
     """the descriptor stored with a violation: self-contained (carries the text)"""
     text, schema, extra = render(case)
+    if case["kind"] == "multi":
+        menu = multi_menu(schema)
+        return {"kind": "multi", "schema": schema, "opts": case["opts"], "texts": list(text), "counts": list(extra),
+                "names": [menu[i][0] for i in case["p"]["seq"]] if "p" in case else case.get("names")}
     c = {"kind": case["kind"], "schema": schema, "opts": case["opts"], "text": text}
     p = case.get("p") or {}
     if case["kind"] == "trees" and p.get("vocab"):
@@ -1289,7 +1486,8 @@ def run_chunk(chunk, ctx):
             ctx.count("cases|layer|" + chunk["layer"])
             run_case(cc, ctx, tmp)
             if chunk["lo"] == 0 and case is cases[0]:
-                ctx.sample({"layer": chunk["layer"], "schema": cc["schema"], "options": cc["opts"], "text": cc["text"][:700]}, 6)
+                ctx.sample({"layer": chunk["layer"], "schema": cc["schema"], "options": cc["opts"],
+                            "text": (cc["text"] if "text" in cc else "\n----\n".join(cc["texts"]))[:700]}, 6)
     finally:
         shutil.rmtree(tmp, ignore_errors=True)
     return None
@@ -1300,6 +1498,6 @@ def replay(case, ctx):
     try:
         c = dict(case)
         c.pop("route", None)
-        run_case(c if "text" in c else compact(c), ctx, tmp)
+        run_case(c if ("text" in c or "texts" in c) else compact(c), ctx, tmp)
     finally:
         shutil.rmtree(tmp, ignore_errors=True)
